@@ -290,3 +290,38 @@ def run(ctx):
         return Ty('dc', spec=spec)
 
     drive.for_each_case(ctx, 'cube', ctx.budget, body, gen=gen_cube)
+
+    # unions of a dataclass and its subclass (either order), alone and nested: the subclass instance must survive
+    def gen_inherit(ctx_, rng):
+        opts = rng.choice(({}, {'allow_extra': True}, {'in_format': ('struct', 'tuple')}, {'rename': 'camel'}))
+        base_fields = [FieldM('alpha', Ty('int')), FieldM('count', Ty('int'), 'val', 0)]
+        bspec = ClassM(f"KB{next(_serial)}", base_fields, dict(opts))
+        bty = Ty('dc', spec=bspec)
+        Bcls = py_class(bty)
+        extra = FieldM('extra_f', Ty(rng.choice(('str', 'float'))), 'val', 'x')
+        if extra.ty.k == 'float':
+            extra.dval = 1.5
+        if rng.random() < 0.5:
+            extra.dflt, extra.dval, extra.kw_only = 'req', None, True     # (a required field after a defaulted one must be keyword-only)
+            if 'tuple' in opts.get('in_format', ()):
+                extra.dflt, extra.dval, extra.kw_only = 'val', ('x' if extra.ty.k == 'str' else 1.5), False
+        dspec = ClassM(f"KD{next(_serial)}", [FieldM('alpha', Ty('int')), FieldM('count', Ty('int'), 'val', 0), extra], dict(opts))
+        dty = Ty('dc', spec=dspec)
+        from ..tyast import build_class
+        dty._obj = build_class(dspec, base=Bcls)
+        members = [bty, dty] if rng.random() < 0.5 else [dty, bty]
+        u = Ty('union', members)
+        wrap = rng.choice(('top', 'list', 'optional', 'field', 'dictval'))
+        if wrap == 'list': return Ty('list', [u])
+        if wrap == 'dictval': return Ty('dict', [Ty('str'), u])
+        if wrap == 'optional': return Ty('union', members + [Ty('none')])
+        if wrap == 'field': return Ty('dc', spec=ClassM(f"KO{next(_serial)}", [FieldM('inner_val', u), FieldM('zz', Ty('int'), 'val', 0)], {}))
+        return u
+
+    def body_inherit(i, rng, ty, T):
+        ctx.count('inheritance_union_cases')
+        for j in range(6):
+            v = genval.member(ty, rng)
+            check(i, rng, ty, T, v, 'inherit')
+
+    drive.for_each_case(ctx, 'inherit', max(30, ctx.budget // 6), body_inherit, gen=gen_inherit)
